@@ -55,6 +55,19 @@ def corpus_groups(mode):
     return out
 
 
+def state_groups(tier, rng):
+    """the whole captured state of the task closure is one over-aligned value (16 / 64) with a position-dependent
+    pattern, or three words (control): the offset of the closure inside the task block depends on its alignment"""
+    quick = tier == "quick"
+    out = []
+    for scr in ([0], [1], [3], [1, 3, 0]):
+        for state in ("a16", "a64", "w3"):
+            pan = _panic_subsets(scr, rng, 2)[1] if len(scr) > 1 else []
+            s = "script=%s panics=%s state=%s" % (",".join(map(str, scr)), ",".join("%d.%d" % c for c in pan), state)
+            out.append(f"{s} sched=random seed={rng.randrange(1 << 30)} iters={15 if quick else 300}")
+    return out
+
+
 def vec_groups(tier, rng):
     quick = tier == "quick"
     out = []
@@ -94,6 +107,7 @@ def groups(tier, rng):
     # vector discipline: ONE result vector across the broadcasts of the script (cleared in between, appended to,
     # or starting with k elements and capacity c), thread counts growing after a smaller broadcast
     gs += vec_groups(tier, rng)
+    gs += state_groups(tier, rng)
     # bounded DFS (exhaustive for the smallest cases)
     gs.append("script=1 panics= sched=dfs seed=0 iters=100000 spur=2")
     gs.append("script=1 panics=1.1 sched=dfs seed=0 iters=100000 spur=1")
@@ -177,13 +191,14 @@ def streams(mode, tier, rng):
                 model_input=lambda c, i: c + "\t" + i,
                 impl_runner=_runner(gs), impl_timeout=170 if tier == "quick" else 1500,
                 describe="verbatim pool.rs on shuttle; each distinct schedule trace replayed through the extracted step")
-    vg = vec_groups(tier, rng)
-    st2 = Stream("trace-replay-vector-release", mode, list(vg),
+    vg = vec_groups(tier, rng) + state_groups(tier, rng)
+    st2 = Stream("trace-replay-layout-release", mode, list(vg),
                  compare=lambda i, m: m == "accept" and "!" not in i and not i.startswith("crash"),
                  nontrivial=_nontrivial, model_input=lambda c, i: c + "\t" + i, release=True,
                  impl_runner=_runner(vg), impl_timeout=170 if tier == "quick" else 900,
-                 describe="same, release build (std's set_len precondition is not checked there): the vector guards of the "
-                          "harness (len <= capacity, n+1 new slots, old elements untouched) are what reports")
+                 describe="vector-discipline and captured-state groups, release build (std's set_len precondition and rustc's "
+                          "misaligned-pointer check are off there): the harness guards (len <= capacity, n+1 new slots, old "
+                          "elements untouched, captured pattern intact) are what reports")
     return [st, st2]
 
 
@@ -240,7 +255,7 @@ def _fmt_group(scr, pan, bombs, d):
     out = ["script=" + ",".join(map(str, scr)), "panics=" + ",".join("%d.%d" % c for c in pan)]
     if bombs:
         out.append("bombs=" + ",".join("%d.%d" % c for c in bombs))
-    for k in ("vec", "sched", "seed", "iters", "spur"):
+    for k in ("vec", "state", "sched", "seed", "iters", "spur"):
         if k in d:
             out.append(f"{k}={d[k]}")
     return " ".join(out)
